@@ -22,6 +22,12 @@ func init() {
 func scenarioC07(r *Run) {
 	r.FirstOnly = true
 	r.Conf = DefaultBESSConf()
+	// one run in five on the P4Runtime datapath, where a Session Deletion can be
+	// refused (a Write fails): the session lives on and keeps its identifiers
+	up4 := r.Ch.Choose(5, "datapath") == 1
+	if up4 {
+		r.DrawUP4Conf()
+	}
 	r.DrawStrategy()
 	mode := r.Ch.Choose(5, "randmode")
 	switch mode {
@@ -42,7 +48,7 @@ func scenarioC07(r *Run) {
 		r.AddPeer()
 	}
 	r.StartAgent()
-	if !r.AgentAlive() {
+	if !r.AgentAlive() || (up4 && !r.WaitUP4Ready()) {
 		r.CheckNoPanics("C07")
 		return
 	}
@@ -60,7 +66,13 @@ func scenarioC07(r *Run) {
 	}
 	g := NewGen(r)
 	g.PlainQER = true
-	r.Skel(fmt.Sprintf("mode=%d wrap=%v np=%d", mode, wrap, np))
+	g.UP4 = up4
+	if up4 {
+		for _, k := range KnownTriggers {
+			g.Avoid[k] = true
+		}
+	}
+	r.Skel(fmt.Sprintf("mode=%d wrap=%v np=%d up4=%v", mode, wrap, np, up4))
 	checkIDs := func(ctx string) {
 		seids := map[string]uint64{}
 		teids := map[uint32]uint64{}
@@ -134,7 +146,7 @@ func scenarioC07(r *Run) {
 			}
 		}
 		checkIDs(fmt.Sprintf("round %d", round))
-		if len(r.Violations) == 0 {
+		if len(r.Violations) == 0 && !up4 {
 			// the identifiers in the response are those programmed for the session
 			for _, s := range r.LiveSessions() {
 				if s.Checked {
@@ -169,7 +181,35 @@ func scenarioC07(r *Run) {
 		}
 		if live := r.LiveSessions(); len(live) > 0 && r.Ch.Choose(3, "del") == 1 {
 			s := live[r.Ch.Choose(len(live), "which")]
-			s.Peer.Delete(s)
+			armed := up4 && r.Ch.Choose(2, "deletion-refused") == 1
+			if armed {
+				r.W.P4.FailKind = "transport"
+				r.W.P4.Faults.FailNth = r.W.P4.Writes + 1 + r.Ch.Choose(2, "deletion-refused-write")
+			}
+			dr := s.Peer.Delete(s)
+			if armed {
+				r.W.P4.Faults.FailNth = 0
+				if !dr.Accepted && dr.Rx != nil {
+					// refused: the session stays live (in the model too) with its F-SEID and TEIDs
+					r.Fault("p4-write-fails-in-deletion")
+					r.Skel("deletion-refused")
+					r.Op("deletion of cp=%d up=%d refused (cause %d): the session keeps its identifiers", s.CPSEID, s.UPSEID, dr.Cause)
+				}
+			}
+		}
+		// one association ends (release) while the others hold sessions with UP-chosen
+		// TEIDs; the peer comes back and everybody goes on choosing
+		if np > 1 && len(r.LiveSessions()) > 0 && r.Ch.Choose(5, "release-one") == 1 {
+			q := r.Peers[r.Ch.Choose(np, "release-which")]
+			q.Release()
+			q.Sessions = map[uint64]*CPSession{}
+			r.Sim.RunFor(300 * time.Millisecond)
+			r.Skel("association-released")
+			r.Probe("association-released-while-others-hold-teids")
+			r.Op("peer%d released its association (%d sessions of others live)", q.Idx, len(r.LiveSessions()))
+			if q.AssociateRetry() == nil {
+				break
+			}
 		}
 	}
 	r.CheckNoPanics("C07")
